@@ -13,8 +13,8 @@ import core
 import families as fam
 
 PROP = "C04"
-IMPORTS = "C04.Model C04.Fam"
-TOL = 1e-5          # worst relative error measured on the unchanged tree: 6e-8 (steps-1 not a power of two), 3e-7 cubic
+IMPORTS = "C04.Model C04.Fam C04.Proofs"
+TOL = 1e-5          # worst error / scale measured on the unchanged tree (150 non-exact cases, F-quad and F-cubic): 1.0e-7
 PRELUDE = """
 Open Scope Qc_scope.
 Definition qlist2_close (tol scale : Qc) (a b : list (list Qc)) : bool :=
@@ -22,10 +22,9 @@ Definition qlist2_close (tol scale : Qc) (a b : list (list Qc)) : bool :=
 Definition pair_eqb (a b : list Qc * list Qc) : bool := qlist_eqb (fst a) (fst b) && qlist_eqb (snd a) (snd b).
 Definition red_factor (r : reducer) (c : nat) : Qc :=
   match r with RMean => if (2 <=? c)%nat then qn c else 1 | _ => 1 end.
-(* K(x, b) / (m-1)^2 : the completeness gap of F-cubic *)
+(* K(x, b) / (m-1)^2 : the completeness gap of F-cubic, with the very K of theorem ig_gap_cubic *)
 Definition cubic_gap (As : list (list Qc)) (m : nat) (bv : Qc) (x t : list Qc) : Qc :=
-  qsum (map (fun i => cube_coef As t i * ((nthq x i - bv) * (nthq x i - bv) * (nthq x i - bv))) (seq 0 (length x)))
-  / (two * (qn (m - 1) * qn (m - 1))).
+  cubic_K As (length x) bv x t / (qn (m - 1) * qn (m - 1)).
 Close Scope Qc_scope.
 """
 RULE = ("F-quad (cross terms) and F-cubic scores offered as tf.Module + explicit operator or as functional Keras model; "
